@@ -147,8 +147,8 @@ def collect_reads_in_parallel(sample, chr_id, args):
         for g in read_grouper.read_groups:
             group_dump.write("%s\n" % g)
     alignment_collector.alignment_stat_counter.dump(bamstat_file)
-    # the save file gets its terminator and is closed in the printer's destructor, do it before the lock is set
-    del tmp_printer
+    # the save file gets its terminator and is closed before the lock is set
+    tmp_printer.close()
 
     logger.info("Finished processing chromosome " + chr_id)
     open(lock_file, "w").close()
